@@ -10,6 +10,20 @@
   `fresh i` is the name `u_i` and `prime v` the name `v_prime`; the only thing assumed about the naming
   is that different indices give different names (`Function.Injective fresh`) and that a primed name is
   larger than the name it was made from (`∀ n, n < prime n`: "x" < "x_prime" as strings).
+  `D.DConn Z a b` / `MConnMixed G Z a b` are d-connection in the LV-DAG / m-connection in a mixed graph in
+  the walk formulation (a collider needs a descendant-or-self in `Z`, every other inner node is outside `Z`).
+
+  Clauses of the property and their theorems:
+    round trip ........................ roundtrip, roundtrip_total, toLV_is_projection, toLV_observed
+    simplification is total ........... simplify_total
+    idempotent ........................ simplify_idem
+    keeps every observed node ......... simplify_keeps_observed
+    read-off graph = projection ....... simplify_projection (rule1..rule4_*_sameProj, fromLV_is_projection)
+    separation unchanged .............. simplify_dsep_invariant, dsep_iff_msep_projection, simplify_msep_invariant
+    verdicts from the projection ...... verdict_invariant
+    evans_simplify .................... evans_projection, evans_id
+  Nothing is `_partial`; the one classical fact that is used informally when reading the separation
+  theorems (walk formulation = path formulation) is listed as OPEN at the end of section 2b.
 -/
 import Y0.Lemmas.LatentOfMG
 import Y0.Lemmas.LatentSimplify
@@ -207,6 +221,14 @@ theorem simplify_msep_invariant (prime : Nat → Nat) (hp : ∀ n, n < prime n) 
   obtain ⟨G, hG, hproj⟩ := simplify_projection prime hp D hw ha r h
   exact ⟨G, hG, (dsep_iff_msep_projection prime hp D hw ha G hproj Z a b hZ hoa hob hab).symm⟩
 
+-- OPEN: (classical, generic graph theory, not specific to y0; not mechanised; cross-checked by the
+--   harness oracle on every generated case by enumerating simple paths)
+--   theorem dconn_walk_iff_path : D.Acyclic → (D.DConn Z a b ↔ ∃ a simple path a = x₀, …, xₙ = b in the
+--     skeleton of D on which every collider has a descendant-or-self in Z and every other inner node is
+--     outside Z),  and the same statement for `MConnMixed`.
+--   The theorems above are complete statements about the walk formulation, which is a standard
+--   definition of d-/m-connection; only the translation to the path formulation is left to the literature.
+
 /-! ## 3. `evans_simplify` (ADMG → LV-DAG, mark extra latents, simplify, read back) -/
 
 /-- `evans_simplify(G, latents=extra)` never raises on an acyclic mixed graph and returns the latent
@@ -241,6 +263,12 @@ def exampleDag : LV :=
   { nodes := [1, 2, 3, 4, 10, 11, 12, 13, 14, 15],
     edges := [(1, 10), (10, 11), (10, 2), (11, 3), (11, 4), (12, 3), (12, 4), (13, 2), (14, 15)],
     latent := [10, 11, 12, 13, 14, 15] }
+
+/-- the hypotheses of the theorems of section 2 hold for it -/
+example : exampleDag.WF ∧ exampleDag.Acyclic ∧ (∀ n : Nat, n < n + 100) := by
+  refine ⟨⟨by decide, by decide, by decide, by decide, rfl⟩, ?_, fun n => by omega⟩
+  exact acyclic_of_rank exampleDag
+    (fun n => if n = 10 ∨ n = 15 then 1 else if n = 11 ∨ n = 2 then 2 else if n = 3 ∨ n = 4 then 3 else 0) (by decide)
 
 example :
     ((exampleDag.simplify (· + 100)).toOption.map
